@@ -38,8 +38,11 @@ ENV_STUBS = ["stdio model harness/c/env.h (fgetc/getc/fread/ftell/ferror/clearer
              "printf/fprintf/fputs/putchar/perror as an event log; only the 4 stdout formats of lines.c accepted)",
              "token map precomputed natively each run from the real build_mapping (harness/c/gen_map.c)"]
 
-def line_ob(pid, dname, dnum, mode, L, extra_defs=(), tag=""):
-    oid = "%s.line.%s.%s.L%d%s" % (pid, mode.lower(), dname, L, tag)
+def line_ob(pid, dname, dnum, mode, L, extra_defs=(), tag="", ndebug=True):
+    """ndebug=True compiles lines.c as the pinned build does (-DNDEBUG); False keeps assert() active
+    (a failing assert is then a failed CBMC property)."""
+    extra_defs = list(extra_defs) + (["NDEBUG"] if ndebug else [])
+    oid = "%s.line.%s.%s.L%d.%s%s" % (pid, mode.lower(), dname, L, "ndebug" if ndebug else "assert", tag)
     def build():
         d = prepare_dialect(dname, dnum)
         defs = common_defs() + ["LMAX=%d" % L, "MODE_" + mode] + list(extra_defs)
@@ -52,16 +55,17 @@ def line_ob(pid, dname, dnum, mode, L, extra_defs=(), tag=""):
         return dict(cmd=cmd, native=native)
     what = {"CONFORM": "real decode_line == reference line decoder (events, acceptance, indent-out) on every accepted line",
             "REJECT": "every line the reference rejects makes the real decode_line return false with a diagnostic",
-            "SAFE": "decode_line on arbitrary bytes: no bounds/pointer/overflow/shift violation, terminates, false => diagnostic"}[mode]
+            "SAFE": "decode_line on arbitrary bytes: no bounds/pointer/overflow/shift violation, terminates, false => diagnostic",
+            "IOFAIL": "decode_line with stdout failing from an arbitrary call on: any lost output => returns false after perror"}[mode]
     return Obligation(oid, what + " [dialect %s]" % dname,
                       "data[%d] symbolic, len<=%d, line number 0..65535, indent in [-8,8], listo 0..7, 0<=file_pos<=2^31; unwind %d" % (L, L, L + 1),
                       LINE_FUNCS, build, weight_gb=2 + L * 0.7, timeout=1500, stubs=ENV_STUBS)
 
-def framing_ob(pid, endian, mode, N, nfiles=1):
-    oid = "%s.framing.%s.%s.N%d.F%d" % (pid, mode.lower(), endian, N, nfiles)
+def framing_ob(pid, endian, mode, N, nfiles=1, ndebug=True):
+    oid = "%s.framing.%s.%s.N%d.F%d.%s" % (pid, mode.lower(), endian, N, nfiles, "ndebug" if ndebug else "assert")
     def build():
         d = subdir(oid)
-        defs = common_defs() + [endian, "NIN=%d" % N, "NFILES=%d" % nfiles, "MODE_" + mode]
+        defs = common_defs() + [endian, "NIN=%d" % N, "NFILES=%d" % nfiles, "MODE_" + mode] + (["NDEBUG"] if ndebug else [])
         gb, gb2 = os.path.join(d, "h.gb"), os.path.join(d, "h2.gb")
         cc = ["goto-cc", "-I", os.path.join(REPO, "basic"), "-I", HC]
         for x in defs: cc += ["-D", x]
